@@ -145,7 +145,7 @@ def run_rt(spec, acc):
                     acc.violation('C07/rt/latency-none-or-negative-not-'
                                   'immediately', dict(w, decoded=repr(dec)[:400]))
                 else:
-                    acc.violation(f'C07/rt/content-differs/{s}',
+                    acc.violation(f'C07/rt/content-differs/{M.mechanism(s)}',
                                   dict(w, decoded=repr(dec)[:400]))
             return None
         return dec
